@@ -17,7 +17,9 @@ Case kinds (all plain JSON):
 
   SPEC = {"opts": {...compile relevant options...}, "loader": "dict"|"fsA"|"fsB"}
   PATTERN = template source in which "@V@" is replaced by the current version number of the template
-  (versions only grow, so a stale rendering is distinguishable from every rendering of the current source).
+  (versions only grow, so a stale rendering is distinguishable from every rendering of the current source),
+  "@S@" by the (version mod 9)-th of nine line-separator characters and "@T@" by a final newline in odd versions
+  (near-identical versions; the reference history compares source texts, not version numbers).
 
 The oracle is differential: a load through the cache must give the outcome (text, or exception class plus
 the template frames of its traceback) that a cache-less environment with the same options and loader gives
@@ -46,7 +48,7 @@ RULE = (
     "stored entry, zero-length, directory in place, stale source, entry of another name, five foreign magic headers with a "
     "payload that renders differently, entries written by a copy of the bccache module executed under three other "
     "interpreter versions, trailing garbage; (c) all histories ending in a load, of length <= 4 (quick) / <= 5 "
-    "(thorough; <= 6 for four of the pairs), over {load(env0|env1, a|b), modify(a|b), clear} for 4 equally configured pairs (one with two file-system "
+    "(thorough; <= 6 for four of the pairs), over {load(env0|env1, a|b), modify(a|b), clear} for 5 equally configured pairs (source versions of some templates differ only in one line-separator character or in the final newline) (one with two file-system "
     "loaders serving the same name from different roots) and 10 pairs differing in one compile-relevant option, plus "
     "Hypothesis-generated long histories; (d) MemcachedBytecodeCache over a fake client with per-call fault schedules. "
     "Non-trivial = some judged load happened while an entry for the same key existed in some (valid, damaged, stale, "
@@ -142,6 +144,12 @@ def _mkenv(spec, store, bcc):
     return cls(loader=loader, **kw)
 
 
+# "@S@" in a pattern: successive versions differ in exactly this one character (all are line boundaries for
+# str.splitlines, none but "\n" is one for the lexer; "\r" is left out because the lexer treats \r\n, \r and \n alike)
+LINE_SEPS = ["\n", "\x0b", "\x0c", "\x1c", "\x85", "\u2028", "\u2029", "\x1d", "\x1e"]
+# "@T@" in a pattern: a final newline that is present in odd versions only
+
+
 class _Store:
     """Current sources: a dict (DictLoader) mirrored into two directories (FileSystemLoaders)."""
 
@@ -168,7 +176,9 @@ class _Store:
             f.write(self.cur[n])
 
     def _set(self, n):
-        self.cur[n] = self.tpl[n].replace("@V@", str(self.ver[n]))
+        v = self.ver[n]
+        self.cur[n] = (self.tpl[n].replace("@V@", str(v)).replace("@S@", LINE_SEPS[v % len(LINE_SEPS)])
+                       .replace("@T@", "\n" if v % 2 else ""))
         for d in self._roots.values():
             self._write(d, n)
 
@@ -768,12 +778,12 @@ def _check_hist(case):
         memo = {}
 
         def expected(i, n):
-            k = (i, n, store.ver[n])
+            k = (i, n, store.cur[n])
             if k not in memo:
                 memo[k] = _expected(refs[i], specs[i], store, n)
             return memo[k]
 
-        entry = {}  # reference history: key -> (version the entry was written for, writer env) ; key = (name, loader kind)
+        entry = {}  # reference history: key -> (source text the entry was written for, possible writers); key = (name, loader kind)
         nontrivial = False
         for step, op in enumerate(ops):
             if op[0] == "M":
@@ -817,7 +827,7 @@ def _check_hist(case):
             prev = entry.get(key)
             if prev is not None:
                 nontrivial = True
-            current = prev is not None and prev[0] == store.ver[n]
+            current = prev is not None and prev[0] == store.cur[n]
             served_foreign = current and (1 - i) in prev[1]
             if prev is None:
                 labels.append("load_no_entry")
@@ -840,7 +850,7 @@ def _check_hist(case):
             if current:
                 prev[1].add(i)
             else:
-                entry[key] = (store.ver[n], {i})
+                entry[key] = (store.cur[n], {i})
         if not memc:
             _check_atomic(cache_dir, "end of history %r" % (ops,), "")
     return core.Outcome(nontrivial, labels)
@@ -872,6 +882,8 @@ T_ERR = "line1 v@V@\n{{ x }}\n{{ 1 // zero }}"
 T_NL = "a v@V@\nb\r\nc{{ x }}\n"
 T_SMALL = "{{ x }}v@V@"
 T_SELF = T_MAIN + "{{ self }}"  # names the template the code was compiled for
+T_SEP = "first line@S@second line {{ x }}|{{ items|join(',') }}"  # versions differ in one separator character only
+T_TAIL = "tail {{ x }}@T@"  # versions differ in the final newline only (visible with keep_trailing_newline)
 T_TRANS = "{% trans %}  hello\n  {{ x }}  {% endtrans %}v@V@"
 
 D = {"loader": "dict"}
@@ -890,10 +902,11 @@ EQUAL_PAIRS = [
     (spec(), spec(), {"a": T_SELF, "b": T_SELF}),
     (spec("fsA"), spec("fsB"), {"a": T_ERR, "b": T_ERR}),
     (spec(autoescape=True, enable_async=True, trim_blocks=True), spec(autoescape=True, enable_async=True, trim_blocks=True),
-     {"a": T_CALL, "b": T_ERR}),
+     {"a": T_CALL, "b": T_SEP}),
     (spec(sandboxed=True, extensions=["do", "loopcontrols"]), spec(sandboxed=True, extensions=["do", "loopcontrols"]),
      {"a": T_EXT, "b": T_CALL}),
 ]
+EQUAL_PAIRS.append((spec(keep_trailing_newline=True), spec(keep_trailing_newline=True), {"a": T_TAIL, "b": T_SEP}))
 DIFF_PAIRS = [
     ({"autoescape": True}, {"a": T_MAIN, "b": T_FIN}),
     ({"enable_async": True}, {"a": T_MAIN, "b": T_CALL}),
@@ -969,7 +982,7 @@ def crash_cases(tier):
 
 
 DAMAGE_SPECS = [spec(), spec(autoescape=True, enable_async=True), spec(sandboxed=True, trim_blocks=True), spec("fsB")]
-DAMAGE_SRCS = [T_MAIN, T_CALL, T_SMALL, T_ERR, T_TRANS]
+DAMAGE_SRCS = [T_MAIN, T_CALL, T_SMALL, T_ERR, T_TRANS, T_SEP]
 OTHER_INTERPS = ["minor-1", "minor+1", "major+1"]
 MAGICS = ["py_minor-1", "py_minor+1", "py_major-1", "bc_version-1", "bc_version+1"]
 
@@ -1074,7 +1087,10 @@ def run_shard(spec_, ctx):
         if not rec.violations:
             core.hyp_shard(memc_strategy(), check_case, ctx, ctx.pick(40, 600), rec=rec, tag="memc")
     finally:
-        shutil.rmtree(os.path.join(WORK, "c27-%d" % os.getpid()), ignore_errors=True)
+        top = os.path.join(WORK, "c27-%d" % os.getpid())
+        shutil.rmtree(top, ignore_errors=True)
+        if os.path.exists(top):  # a busy file system can fail the first attempt; do not leave litter silently
+            shutil.rmtree(top)
     return rec
 
 
